@@ -312,6 +312,10 @@ pub fn plan(property: &str, tier: &str) -> Option<CheckSpec> {
             gs.max_attach = 0;
             gs.traces = vec![TraceOpt { trace: 0x4D, sampled: true, remote_parent: 0x51 }, TraceOpt { trace: 0x4D, sampled: true, remote_parent: 0x52 }];
             b.add_gen(&gs, 1, &[true, false], &rules, 3_000_000);
+            // cancel() of one root while a span it shares with another root is the local parent
+            for c in [true, false] {
+                b.add_batch(cancel_in_scope_programs(), c, false, &rules);
+            }
             // cancel() while the calling thread's command queue is full (the overload programs of
             // C09 that contain a cancel)
             let ring: Vec<Program> = overload_programs(if quick { 2 } else { 3 }).into_iter().filter(|p| p.actors[0].ops.iter().any(|o| matches!(o, Op::Cancel { .. }))).collect();
@@ -391,6 +395,12 @@ pub fn plan(property: &str, tier: &str) -> Option<CheckSpec> {
             for s in warm(ALL_SCENARIOS) {
                 for c in [true, false] {
                     b.add("SCHED", scenario(&s, 2).unwrap(), c, Some(bound), &rules, true);
+                }
+            }
+            // traces started while the ring is full and ended on another thread
+            for pr in overload_handoff_programs() {
+                for c in [true, false] {
+                    b.add("SCHED", pr.clone(), c, Some(2), &rules, false);
                 }
             }
             let mut g = GenCfg::base("C08-seq");
